@@ -13,6 +13,7 @@ import (
 
 	"github.com/jech/galene/conn"
 	"github.com/jech/galene/group"
+	"github.com/jech/galene/packetcache"
 	"github.com/jech/galene/rtpconn"
 
 	"verif/simrt"
@@ -148,13 +149,15 @@ type mediaWorld struct {
 	readLoopTask string
 	nackWriterTasks map[string]bool
 	// C06
-	delivered  map[int64]bool
+	delivered  map[int64]bool // pushed towards the server
+	stored     map[int64]bool // stored by the receive loop (= received by the server)
 	newest     int64
 	haveNewest bool
 	nackedRL   map[int64]bool // by the receive loop
 	nackedAny  map[int64]bool
 	arrivalPos map[int64]int // ext -> arrival position of first delivery
 	pushed     int
+	pushedMax  int64
 	check      map[string]bool // which oracle families are active
 }
 
@@ -175,7 +178,7 @@ const mediaOfferAudio = "v=0\r\no=- 0 0 IN IP4 127.0.0.1\r\ns=-\r\nt=0 0\r\nm=au
 
 func newMediaWorld(c *Ctx, p *mediaPlan) *mediaWorld {
 	w := &mediaWorld{c: c, p: p, byTrk: map[*rtpconn.VerifDownTrack]*recvState{}, inNACK: map[string]int{}, inSeq: map[string]int{},
-		delivered: map[int64]bool{}, nackedRL: map[int64]bool{}, nackedAny: map[int64]bool{}, arrivalPos: map[int64]int{},
+		delivered: map[int64]bool{}, stored: map[int64]bool{}, nackedRL: map[int64]bool{}, nackedAny: map[int64]bool{}, arrivalPos: map[int64]int{},
 		nackWriterTasks: map[string]bool{}, check: map[string]bool{}}
 	w.src = genStream(&p.Stream)
 	w.codec = p.Stream.Codec
@@ -289,6 +292,22 @@ func (w *mediaWorld) installProbes() {
 	r.Probe("rtpconn.readLoop", func(enter bool, args []any) {
 		if enter {
 			w.readLoopTask = simrt.CurrentTaskID()
+		}
+	})
+	r.Probe("packetcache.(*Cache).Store", func(enter bool, args []any) {
+		if enter || w.upt == nil || len(args) < 6 {
+			return
+		}
+		if cch, _ := args[0].(*packetcache.Cache); cch != w.upt.VerifCache() {
+			return
+		}
+		buf, _ := args[5].([]byte)
+		if s := w.srcOf(buf); s != nil {
+			// the server has received (stored) this packet
+			w.stored[s.Ext] = true
+			if !w.haveNewest || s.Ext > w.newest {
+				w.newest, w.haveNewest = s.Ext, true
+			}
 		}
 	})
 	r.Probe("rtpconn.nackWriter", func(enter bool, args []any) {
@@ -430,7 +449,7 @@ func (w *mediaWorld) judgeUpNACK(s uint16, fromReadLoop bool) {
 		w.nackedAny[ext] = true
 		return
 	}
-	if w.delivered[ext] {
+	if w.stored[ext] {
 		w.c.Violation("C06.nack-received", "%s requests retransmission of seqno %d (ext %d), which was delivered to the server earlier (newest %d)", who, s, ext, w.newest)
 		return
 	}
